@@ -176,7 +176,10 @@ def denote (t : Ref) : Option Components :=
 
 /-- `new URL(ref, base)` as the standard prescribes (on the grammar of the property) -/
 def resolveSpec (ref base : Bytes) : Option Components :=
-  denote (transform (splitRef base) (splitRef ref))
+  -- WHATWG: the base is itself a parsed URL, i.e. its dot segments are already removed (RFC 3986 §5.2.1 allows that)
+  let b := splitRef base
+  let b := { b with path := removeDotSegments (if b.path == [] then [47] else b.path) }
+  denote (transform b (splitRef ref))
 
 /-- `new URL(s)`: the same function without a base; a string without a scheme is rejected (`none`) -/
 def parseSpec (s : Bytes) : Option (Option Components) :=
